@@ -76,6 +76,8 @@ def stmt(st):
 
 ISOLATED_LOOP = ("error = None",
                  "for cb in callbacks:\n    try:\n        cb(self)\n    except Exception as ex:\n        if error is None:\n            error = ex")
+ISOLATED_LOOP_BASE = (ISOLATED_LOOP[0], ISOLATED_LOOP[1].replace("except Exception as ex", "except BaseException as ex"))
+SEEN = {"baseexception": False}
 
 
 def stmts(body):
@@ -87,7 +89,8 @@ def stmts(body):
         if isinstance(st, ast.With) and len(st.items) == 1 and st.items[0].optional_vars is None \
                 and ast.unparse(st.items[0].context_expr) == "self._lock":
             out += ["SLockAcquire"] + stmts(st.body) + ["SLockRelease"]
-        elif i + 1 < len(body) and (ast.unparse(st), ast.unparse(body[i + 1])) == ISOLATED_LOOP:
+        elif i + 1 < len(body) and (ast.unparse(st), ast.unparse(body[i + 1])) in (ISOLATED_LOOP, ISOLATED_LOOP_BASE):
+            SEEN["baseexception"] = (ast.unparse(st), ast.unparse(body[i + 1])) == ISOLATED_LOOP_BASE
             out.append("SRunTakenIsolated")
             i += 1
         else:
@@ -191,6 +194,7 @@ def translate(repo):
     tree = parse(repo, SRC)
     cls = find_class(tree, "AsyncResult")
     progs = {}
+    SEEN["baseexception"] = False
     for py, gen, argnames, is_prop in METHODS:
         def one(py=py, gen=gen, argnames=argnames, is_prop=is_prop):
             fn = find_func(cls, py)
@@ -207,7 +211,8 @@ def translate(repo):
     def facts():
         if "__call__" not in progs or "add_callback" not in progs:
             raise Unrecognised("__call__ / add_callback not translated")
-        return [typed("callbacks_isolated", "bool", coq_bool(isolated_of(progs["__call__"]))),
+        return [typed("callbacks_survive_baseexception", "bool", coq_bool(isolated_of(progs["__call__"]) and SEEN["baseexception"])),
+                typed("callbacks_isolated", "bool", coq_bool(isolated_of(progs["__call__"]))),
                 typed("add_callback_atomic", "bool", coq_bool(atomic_of(progs["__call__"], progs["add_callback"])))]
     guarded("facts", facts)
     for nm in ("__init__", "__repr__"):
